@@ -34,7 +34,7 @@ def names_in(fname, rx=".*"):
     """All harness names defined in a harness file (direct #[kani::proof] fns and macro instances) matching rx."""
     txt = open(os.path.join(_HDIR, fname)).read()
     names = re.findall(r"#\[kani::proof\][^\n]*\n(?:\s*#\[[^\n]*\n)*\s*fn\s+(\w+)", txt)
-    names += [m.group(1) for m in re.finditer(r"^\s*\w+!\(\s*([a-z]_\w+)\s*,", txt, re.M)]
+    names += [m.group(1) for m in re.finditer(r"^\s*\w+!\(\s*([a-z]{1,2}_\w+)\s*,", txt, re.M)]
     return [n for n in names if re.fullmatch(rx, n)]
 
 BUILDS["codec"] = {"files": ["network__compression.rs"], "consts": {}}
